@@ -1,6 +1,7 @@
 """The command-line tool (freephil.cli.main, 'phil ...') as an observation point: what it prints is what the library
 calls return.  Oracle-only streams shared by C08 (--diff) and C19 (--print_prefix, --show_* options)."""
 import contextlib
+import re
 import io
 import os
 import shutil
@@ -86,6 +87,14 @@ class CliPrefix(Stream):
         return o[0]
 
 
+_PARENS = re.compile(r"(?<!\\)\$\((?:[A-Za-z_][A-Za-z_0-9]*\)[A-Za-z_0-9]|[^)]*\.[^)]*\))")
+
+
+def needs_parens(text):
+    """a $(NAME) reference directly followed by an identifier character, or with a dotted NAME: '$NAME...' means something else"""
+    return _PARENS.search(text) is not None
+
+
 class CliDiff(Stream):
     """phil --diff master user...  prints exactly master.fetch_diff(sources=users).as_str(): the printed difference, parsed and
     merged back, reproduces the working values (values with blanks before an inner line break, form feeds and other
@@ -95,11 +104,17 @@ class CliDiff(Stream):
     MASTER = ("job {\n  title = None\n    .type = str\n  header = None\n    .type = str\n  n = 1\n    .type = int\n  tags = None\n"
               "    .type = strings\n  res = 3.\n    .type = float\n  mode = *fast thorough\n    .type = choice\n}\n")
     VALUES = ['"Data set 7   \\nsecond crystal"', '"REMARK\x0cPAGE"', '"a\x0bb"', '"x\x1cy"', '"tab\t\\n  end  "', "plain", '"two  blanks"',
-              '"  lead"', '"trail  "', '"\x85"', "None"]
+              '"  lead"', '"trail  "', '"\x85"', "None",
+              # references to an environment variable (the stream defines VERIF_V): a difference keeps them textual
+              '"$(VERIF_V)/model.pdb"', '"$VERIF_V/x"', "$VERIF_V", '"$(VERIF_V)_old"', "$(VERIF_V)2", '"pre $(VERIF_V)"', '"$(VERIF_V)bc d"']
 
     def __init__(self, ctx):
         super().__init__(ctx)
         self.fp = import_freephil()
+
+    def corpus(self):
+        return [{"users": ['job.title = "$(VERIF_V)_old/model.pdb"\n']}, {"users": ["job.n = 2\n", "job.header = $(VERIF_V)2\n"]},
+                {"users": ['job.title = "$(VERIF_V)/model.pdb"\njob.header = $VERIF_V\n']}]
 
     def cases(self, rng, tier):
         for _ in range(60 if tier == "quick" else 800):
@@ -128,6 +143,7 @@ class CliDiff(Stream):
                 with open(f, "w", newline="") as fh:
                     fh.write(text)
                 files.append(f)
+            os.environ["VERIF_V"] = "/data/run7"
             try:
                 master = self.fp.parse(file_name=files[0])
                 users = [self.fp.parse(file_name=f) for f in files[1:]]
@@ -146,6 +162,7 @@ class CliDiff(Stream):
             b = [r.title, r.header, r.n, r.tags, r.res, r.mode]
             return ["ok"] if a == b else ["restores", repr(b)[:300], repr(a)[:300]]
         finally:
+            os.environ.pop("VERIF_V", None)
             shutil.rmtree(d, ignore_errors=True)
 
     def requests(self, case, o):
